@@ -217,7 +217,7 @@ def make_interp(ex, label, a, b, spec):
             if name == "group":
                 def group(it_, i):
                     return SStr(sname(self.s.t)) if i == 1 else SStr(sdig(self.s.t)) if i == 2 else self.s
-                return Model(group, "match.group")
+                return Model(group, "match.group", pure=True)
             raise OutOfSubset(f"match.{name}")
 
     def match_model(it, s):
@@ -255,7 +255,8 @@ def make_interp(ex, label, a, b, spec):
     it = Interp(ex, label=label, loops=loops)
     it.digit_terms = []
     it.split_hook = split_hook
-    it.obj_models = {id(C.suffix_regexp): {"match": Model(match_model, "suffix_regexp.match")}}
+    # pure: the model states a type invariant of its argument and keeps no ghost state
+    it.obj_models = {id(C.suffix_regexp): {"match": Model(match_model, "suffix_regexp.match", pure=True)}}
     return it
 
 
